@@ -6,7 +6,7 @@
 (* computes in the state reached so far.  TLC is the judge; the harness    *)
 (* that recorded the trace contains no oracle.                             *)
 (***************************************************************************)
-EXTENDS FileSem, Abi, Features, Json, IOUtils
+EXTENDS FileSem, Abi, Features, AbiRef, Json, IOUtils
 
 Rec == ndJsonDeserialize(IOEnv.TRACE)
 
@@ -18,10 +18,11 @@ VARIABLES l,        \* next trace line
           ht,       \* names of the symbol table the current hash table was built for (set by hash_wf)
           fh,       \* the open slice-parser handle: [f |-> file, eb |-> handle] or <<>> (closed / open failed)
           sth,      \* the open stream-parser handle: [f, eb, openl, hadfault] or <<>>
+          consts,   \* C19: the exported constants seen so far in this session, name -> 8-byte word
           sv,       \* the symbol version table under test: [class, little, versym, need, def, model] or <<>>
           nbad      \* number of events the specification does not allow
 
-vars == <<l, slots, tbl, ht, fh, sth, sv, nbad>>
+vars == <<l, slots, tbl, ht, fh, sth, consts, sv, nbad>>
 
 Has(e, k) == k \in DOMAIN e
 IsLittle(es) == CASE es \in {"LE", "AnyL"} -> TRUE
@@ -224,6 +225,27 @@ OkSQ(e) ==
     ELSE QueryOk(sth.f, sth.eb, e, TRUE) /\ RelC07(sth.f, sth.eb, e)
 LazySQ(e) == sth # <<>> => ReadsWithin(e.io, QRanges(sth.f, sth.eb, e, TRUE))
 
+\* ---- C19: exported ABI definitions ------------------------------------------------------------
+RefOf(name) == IF name \in DOMAIN AbiRef THEN AbiRef[name]
+               ELSE IF name \in DOMAIN AbiRefAlias THEN AbiRef[AbiRefAlias[name]]
+               ELSE <<>>                                                  \* the reference does not define it
+OkAbiConst(e) == RefOf(e.name) # <<>> => e.val = RefOf(e.name)
+
+EhdrLayout(class) == << <<"e_ident", 16, "u">> >> \o
+                     [i \in 1..Len(CLayout("tail", class)) |->
+                        LET x == CLayout("tail", class)[i] IN IF x[1] = "version" THEN <<"e_version", x[2], x[3]>> ELSE x]
+OkAbiStruct(e) ==
+    LET lay == IF e.ty = "ehdr" THEN EhdrLayout(e.class) ELSE CLayout(e.ty, e.class)
+    IN /\ e.size = SumW(lay, 1)
+       /\ DOMAIN e.offsets = {lay[i][1] : i \in 1..Len(lay)}
+       /\ \A i \in 1..Len(lay) : e.offsets[lay[i][1]] = COff(lay, i)
+
+SymbolicFns == {"e_osabi_to_str", "e_type_to_str", "e_machine_to_str", "sh_type_to_str", "p_type_to_str",
+                "st_symtype_to_str", "st_bind_to_str", "st_vis_to_str", "ch_type_to_str", "d_tag_to_str"}
+NamesValue(s, arg) == s \in DOMAIN consts /\ consts[s] = arg
+OkToStr(e) == (e.fn \in SymbolicFns /\ e.res.out = "ok") => NamesValue(e.res.s, e.arg)
+OkToString(e) == NamesValue(e.s, e.arg) \/ e.has_dec \/ e.has_hex
+
 ---------------------------------------------------------------------------
 \* does the specification allow event e in the current state?
 Allowed(e) ==
@@ -233,6 +255,10 @@ Allowed(e) ==
       [] e.op \in {"sysv_find", "gnu_find"} -> OkFind(e)
       [] e.op \in {"verdef_iter", "verneed_iter", "verdaux_iter", "vernaux_iter"} -> OkVerIter(e)
       [] e.op \in {"symver_req", "symver_def"} -> OkSymver(e)
+      [] e.op = "abi_const" -> OkAbiConst(e)
+      [] e.op = "abi_struct" -> OkAbiStruct(e)
+      [] e.op = "to_str" -> OkToStr(e)
+      [] e.op = "to_string" -> OkToString(e)
       [] e.op = "feature" -> FeatureOk(e)
       [] e.op = "feature_core" -> FeatureCoreOk(e)
       [] e.op = "sopen" -> OkSOpen(e)
@@ -262,7 +288,7 @@ GenOk(e) == IF e.op = "hash_wf" THEN GenOkFind(e) ELSE TRUE
 
 Tag(e) == IF e.op \in {"q", "sq"} THEN e.op \o ":" \o e.name ELSE e.op
 
-Init == l = 1 /\ slots = [x \in {} |-> 0] /\ tbl = <<>> /\ ht = <<>> /\ fh = <<>> /\ sth = <<>> /\ sv = <<>> /\ nbad = 0
+Init == l = 1 /\ slots = [x \in {} |-> 0] /\ tbl = <<>> /\ ht = <<>> /\ fh = <<>> /\ sth = <<>> /\ consts = [x \in {} |-> <<>>] /\ sv = <<>> /\ nbad = 0
 
 Step ==
     /\ l <= Len(Rec)
@@ -299,6 +325,9 @@ Step ==
                                           IN IF o.ok /\ Out(e) = "ok" THEN [f |-> f, eb |-> o, openl |-> l, hadfault |-> FALSE] ELSE <<>>)
                      [] e.op = "sq" -> IF sth # <<>> /\ e.faulted THEN [sth EXCEPT !.hadfault = TRUE] ELSE sth
                      [] OTHER -> sth
+          /\ consts' = CASE e.op = "session" -> [x \in {} |-> <<>>]
+                         [] e.op = "abi_const" -> [x \in (DOMAIN consts) \cup {e.name} |-> IF x = e.name THEN e.val ELSE consts[x]]
+                         [] OTHER -> consts
           /\ sv' = CASE e.op = "session" -> <<>>
                      [] e.op = "symver_new" -> SvOf(e)
                      [] OTHER -> sv
